@@ -261,6 +261,8 @@ func init() {
 				add("hashmap-vs-btree", merge(base, p("k", 3, "ops", opPut|opDelete, "index", 3, "shards", 1, "b_index", 1, "b_shards", 2, "cmpfiles", 1, "iterspan", 1, "vlens", 2)))
 				add("btree-vs-skiplist", merge(base, p("k", 3, "ops", opPut|opDelete, "index", 1, "shards", 2, "b_index", 2, "b_shards", 3, "cmpfiles", 1, "iterspan", 1, "vlens", 2)))
 				add("std-vs-mmap", merge(base, p("k", 3, "ops", opPut|opDelete|opRestart, "index", 3, "shards", 1, "b_io", 2, "vlens", 2)))
+				// values long enough that the log crosses the (scaled, 128-byte) mmap granule within the history
+				add("std-vs-mmap-granule-crossing", merge(base, p("k", 3, "ops", opPut|opRestart, "index", 3, "shards", 1, "b_io", 2, "vlens", 3, "vbig", 70)))
 				add("dfs-and-sync", merge(base, p("k", 3, "ops", opPut|opDelete, "index", 3, "shards", 1, "dfs_lo", 40, "dfs_hi", 120, "b_dfs_lo", 40, "b_dfs_hi", 120, "b_sync", 2, "vlens", 2)))
 				add("shards-16-vs-5000-conckeys", merge(base, p("k", 2, "ops", opPut|opDelete, "conckeys", 1, "index", 3, "shards", 16, "b_shards", 5000, "b_index", 1, "cmpfiles", 1)))
 				add("batch-hashmap-vs-skiplist", merge(base, p("k", 2, "ops", opPut|opBatch, "vlens", 2, "index", 3, "shards", 1, "b_index", 2)))
@@ -777,6 +779,8 @@ func init() {
 			add("mmap-merge-restart-btree", merge(base, p("k", k+1, "ops", opPut|opMerge|opRestart, "io", 1, "index", 1)))
 			// the same directory is backed up into twice, with Delete / Merge / restart (adoption) in between
 			add("std-reuse-after-merge", merge(base, p("k", 2, "ops", opPut|opDelete, "io", 0, "reuse", 1, "k2", 3, "ops2", opDelete|opMerge|opRestart)))
+			add("relative-directories-std", merge(base, p("k", 2, "ops", opPut|opDelete, "io", 0, "reldir", 1, "dfs_lo", 100, "dfs_hi", 100)))
+			add("relative-directories-mmap", merge(base, p("k", 2, "ops", opPut|opDelete, "io", 1, "reldir", 1)))
 			add("cfgsweep-k2", merge(base, p("cfgsweep", 2, "k", 2, "ops", opPut|opDelete, "dfs_lo", 100, "dfs_hi", 100)))
 			if tier == "thorough" {
 				add("mmap-reuse-after-merge", merge(base, p("k", 2, "ops", opPut|opDelete, "io", 1, "reuse", 1, "k2", 3, "ops2", opPut|opDelete|opMerge|opRestart)))
